@@ -2,7 +2,7 @@ import PyttbModel.Core.Codec
 import PyttbModel.Ops.IndexRun
 import PyttbModel.Spec.MutArray
 open Lean Pyttb Pyttb.Codec
-namespace Pyttb.Driver
+namespace Pyttb.Driver.C04
 
 def optInt (j : Json) : R (Option Int) :=
   match j with
@@ -107,4 +107,4 @@ def ops04 : List (String × Op) := [
         | .error _ => (m, rejectJ)) (fun m => denseJ m.toDense)))
 ]
 
-end Pyttb.Driver
+end Pyttb.Driver.C04
